@@ -112,6 +112,9 @@ pub struct Program {
     /// names of package-level generic helpers used
     pub generics: BTreeSet<String>,
     pub oob: bool,
+    /// the program may contain the shape of finding F4 (a non-inlined function that returns one of several
+    /// by-value aggregate parameters of the same type); the ordinary stream is kept free of it
+    pub aggsel: bool,
 }
 
 // ------------------------------------------------------------------------------------------ printing
@@ -335,6 +338,8 @@ pub struct Gen<'r> {
     widths: Vec<W>,
     /// budget of statements still to be generated (bounds program size)
     budget: i64,
+    /// allow the shape of finding F4 (see `Program::aggsel`)
+    aggsel: bool,
 }
 
 impl<'r> Gen<'r> {
@@ -454,6 +459,8 @@ impl<'r> Gen<'r> {
     }
 
     pub fn gen_expr(&mut self, t: &Ty, depth: u32) -> Expr {
+        // `()` only occurs as the payload of unit enum variants, which the .sw printer omits: it must be effect free
+        if *t == Ty::Unit { return Expr::Unit; }
         if depth == 0 || self.r.chance(1, 6) {
             if self.r.chance(1, 2) { if let Some(e) = self.var_of(t) { return e; } }
             return self.gen_value(t);
@@ -564,8 +571,10 @@ impl<'r> Gen<'r> {
             let args = s.params.iter().map(|p| self.gen_expr(p, depth)).collect();
             return Some(Expr::Call(s.name, args));
         }
-        // generic helpers
-        let pick = self.r.below(7);
+        // generic helpers; selecting among several by-value aggregates of one type is the shape of finding F4
+        let scalar = matches!(t, Ty::Int(_) | Ty::Bool);
+        let mut pick = self.r.below(7);
+        if !scalar && !self.aggsel && (pick == 3 || pick == 4) { pick = 0; }
         let e = match pick {
             0 => { self.generics.insert("g_id".into()); Expr::Call("g_id".into(), vec![self.gen_expr(t, depth)]) }
             // the dropped argument is a plain value: an unused trapping computation is deleted by the compiler
@@ -736,6 +745,8 @@ impl<'r> Gen<'r> {
                     // `x = x` of an aggregate sends sway-ir's memcpyopt::copy_prop_reverse into an endless loop
                     // (cycle in its src->dst closure); not part of the fragment
                     if let Expr::Var(x) = &e { if *x == v.name { e = self.gen_value(&t); } }
+                    // `x = *(&x)` reverts in debug builds (finding F3: the self copy becomes an overlapping MCP)
+                    if let Expr::RefDeref(inner) = &e { if let Expr::Var(x) = &**inner { if *x == v.name { e = self.gen_value(&t); } } }
                     // Re-assigning an aggregate from another local (`a = b; … b = a;`) builds memcpy cycles on which
                     // sway-ir's memcpyopt::copy_prop_reverse does not terminate (compiler hang, mostly release).
                     // Aggregate re-assignments therefore never copy from another aggregate local.
@@ -839,7 +850,13 @@ impl<'r> Gen<'r> {
 
     fn gen_fn(&mut self, k: usize) {
         let np = self.r.range(1, 3);
-        let params: Vec<(String, Ty)> = (0..np).map(|j| (format!("a{j}"), self.gen_ty(2))).collect();
+        let mut params: Vec<(String, Ty)> = (0..np).map(|j| (format!("a{j}"), self.gen_ty(2))).collect();
+        if !self.aggsel {
+            for j in 1..params.len() {
+                let dup = !matches!(params[j].1, Ty::Int(_) | Ty::Bool) && params[..j].iter().any(|p| p.1 == params[j].1);
+                if dup { params[j].1 = self.gen_scalar(); }
+            }
+        }
         let ret = loop { let t = self.gen_ty(2); if t != Ty::Unit { break t; } };
         let save_vars = std::mem::take(&mut self.vars);
         let (sl, sd) = (self.in_loop, self.loop_depth);
@@ -938,7 +955,7 @@ fn mutate(e: &mut Expr, target: &mut i64, nv: Num) {
 }
 
 /// Generate program number `k` of a package. `oob`: append a final read at an out-of-bounds dynamic index.
-pub fn gen_program(r: &mut Rng, k: usize, oob: bool) -> Program {
+pub fn gen_program(r: &mut Rng, k: usize, oob: bool, aggsel: bool) -> Program {
     let p_opq = *r.pick(&[0u64, 0, 25, 60, 100]);
     let widths = match r.below(6) {
         0 => vec![W::U64], 1 => vec![W::U8, W::U64], 2 => vec![W::U8, W::U16, W::U32, W::U64],
@@ -947,7 +964,7 @@ pub fn gen_program(r: &mut Rng, k: usize, oob: bool) -> Program {
     let budget = r.range(6, 40) as i64;
     let mut g = Gen {
         r, id: format!("p{k}"), structs: vec![], enums: vec![], consts: vec![], fns: vec![], sigs: vec![],
-        generics: BTreeSet::new(), vars: vec![], nvar: 0, in_loop: false, loop_depth: 0, p_opq, widths, budget,
+        generics: BTreeSet::new(), vars: vec![], nvar: 0, in_loop: false, loop_depth: 0, p_opq, widths, budget, aggsel,
     };
     g.gen_decls();
     let nf = g.r.below(4) as usize;
@@ -979,5 +996,5 @@ pub fn gen_program(r: &mut Rng, k: usize, oob: bool) -> Program {
         stmts.push(Stmt::Let { name: iname.clone(), ty: Ty::Int(W::U64), mutable: false, e: Expr::Opq(Ty::Int(W::U64), Box::new(Expr::Lit(W::U64, Num::small(ix)))) });
         stmts.push(Stmt::Log(Expr::Idx(Box::new(Expr::Var(name)), Box::new(Expr::Var(iname)))));
     }
-    Program { id: g.id, structs: g.structs, enums: g.enums, consts: g.consts, fns: g.fns, main: Block { stmts, tail: None }, generics: g.generics, oob }
+    Program { id: g.id, structs: g.structs, enums: g.enums, consts: g.consts, fns: g.fns, main: Block { stmts, tail: None }, generics: g.generics, oob, aggsel }
 }
